@@ -40,6 +40,11 @@ Next == /\ c.kind = "none"
                     coefs == CASE part = "brk" -> 4 * 8 * shapes.brk[3] * 3 [] part = "atk" -> 3 * 8 * shapes.atk[3] * 2 [] OTHER -> 8 * shapes.tsk[3] * 4
                 IN c' = With(Base("stat", "cbk", shapes[part][1], shapes[part][2], 2), [part |-> part, variant |-> v, be |-> be, nlwe |-> 4, brk |-> shapes.brk, atk |-> shapes.atk,
                                                                                          tsk |-> shapes.tsk, reps |-> (Reps + coefs - 1) \div coefs])
+           \* dependency structure of the bundle: mask words of all three sub-keys = f(mask seed); bodies depend on both secrets and both seeds
+           \/ \E v \in CbkVariants, r \in {1, 2} :
+                LET shapes == IF v = 1 THEN [brk |-> <<3, 4, 2, 1>>, atk |-> <<3, 5, 2, 1>>, tsk |-> <<4, 4, 2, 1>>]
+                                       ELSE [brk |-> <<4, 3, 3, 1>>, atk |-> <<4, 4, 2, 2>>, tsk |-> <<3, 5, 2, 2>>]
+                IN c' = With(Base("dep", "cbk", 3, 4, r), [variant |-> v, nlwe |-> 4, brk |-> shapes.brk, atk |-> shapes.atk, tsk |-> shapes.tsk])
            \/ \E l \in {"glwe_c", "gglwe_c", "ggsw_c"}, b \in Bs, s \in Sizes, r \in Ranks, dn \in 1..3, ds \in 1..2, ri \in 1..3, xa \in Seeds, xe \in Seeds, ko \in {0, 1}, sm \in {0, 1} :
                 /\ s * b <= 24 /\ (l # "glwe_c" => (s > ds /\ dn * ds <= s /\ ko = 0)) /\ (l = "glwe_c" => (dn = 1 /\ ds = 1 /\ sm = 0))
                 /\ (l # "gglwe_c" => ri = 1)
